@@ -325,6 +325,86 @@ def r_iter_mut(t):
     return out, n
 
 
+def r_let_chain(t):
+    """R17: `if let PAT = E && C { B }` with NO else branch -> `if let PAT = E { if C { B } }` (Verus has no let-chains).
+    The two forms are equivalent when there is no else: B runs exactly when the pattern matches and C holds, and C is evaluated
+    only after the pattern matched, with its bindings in scope."""
+    out, i, n = [], 0, 0
+    while i < len(t):
+        if t[i] == "if" and i + 1 < len(t) and t[i + 1] == "let":
+            # find the `&&` at depth 0 before the body's opening brace
+            depth = 0
+            j = i + 2
+            amp = None
+            brace = None
+            while j < len(t):
+                if t[j] in ("(", "["):
+                    depth += 1
+                elif t[j] in (")", "]"):
+                    depth -= 1
+                elif t[j] == "{" and depth == 0:
+                    brace = j
+                    break
+                elif t[j] == "&&" and depth == 0 and amp is None:
+                    amp = j
+                j += 1
+            if amp is not None and brace is not None:
+                close = _match_close(t, brace)
+                if not (close + 1 < len(t) and t[close + 1] == "else"):
+                    inner, k = r_let_chain(t[brace:close + 1])
+                    out += t[i:amp] + ["{", "if"] + t[amp + 1:brace] + inner + ["}"]
+                    n += 1 + k
+                    i = close + 1
+                    continue
+        out.append(t[i])
+        i += 1
+    return out, n
+
+
+def r_for_next(t, which):
+    """R18: the for loops of the item listed in `which` (0-based, in source order) are desugared the way rustc does it, minus the
+    IntoIterator::into_iter call (the iterated expressions are already iterators - models with an inherent `next`):
+        `for PAT in E { B }` -> `{ let mut verif_iterN = E; loop { match verif_iterN.next() { Some(PAT) => { B } None => break, } } }`"""
+    out, i, n, seen = [], 0, 0, -1
+    while i < len(t):
+        if t[i] == "for" and "in" in t[i + 1:i + 12]:
+            seen += 1
+            if seen in which:
+                # pattern up to the `in` at depth 0
+                depth = 0
+                j = i + 1
+                while not (t[j] == "in" and depth == 0):
+                    if t[j] in ("(", "[", "{"):
+                        depth += 1
+                    elif t[j] in (")", "]", "}"):
+                        depth -= 1
+                    j += 1
+                pat = t[i + 1:j]
+                k = j + 1
+                depth = 0
+                while not (t[k] == "{" and depth == 0):
+                    if t[k] in ("(", "["):
+                        depth += 1
+                    elif t[k] in (")", "]"):
+                        depth -= 1
+                    k += 1
+                expr = t[j + 1:k]
+                close = _match_close(t, k)
+                # nested loops are numbered by their own position: recurse on the body with the indices shifted
+                body, kk = r_for_next(t[k:close + 1], [w - seen - 1 for w in which if w > seen])
+                inner_fors = sum(1 for a in range(k, close) if t[a] == "for" and "in" in t[a + 1:a + 12])
+                name = "verif_iter%d" % seen
+                out += ["{", "let", "mut", name, "="] + expr + [";", "loop", "{", "match", name, ".", "next", "(", ")", "{",
+                        "Some", "("] + pat + [")", "=>"] + body + ["None", "=>", "break", ",", "}", "}", "}"]
+                n += 1 + kk
+                seen += inner_fors
+                i = close + 1
+                continue
+        out.append(t[i])
+        i += 1
+    return out, n
+
+
 def r_replace(t, frm, to):
     """generic literal token-sequence replacement (per-item, listed in the overlay directive)"""
     out, i, n = [], 0, 0
@@ -355,6 +435,8 @@ DOC = {
     "R7": "core::cmp::min/max and .min()/.max() -> monomorphic verified helpers (per item)",
     "R8": "size_of::<uN>() -> integer literal",
     "R9": "`#[cfg(..)]` statements/blocks inside bodies dropped (test-only / debug consistency checks); other statement attributes dropped",
+    "R17": "`if let P = E && C { B }` without else -> `if let P = E { if C { B } }` (per item)",
+    "R18": "listed `for P in E { B }` loops -> `{ let mut it = E; loop { match it.next() { Some(P) => { B } None => break, } } }` (per item; rustc's desugaring minus into_iter)",
     "RX": "per-item literal token replacement listed in the overlay directive",
 }
 
@@ -373,6 +455,12 @@ def apply_rules(t, extra=None):
         elif kind == "R14":
             t, n = r_iter_mut(t)
             fired["R14"] = fired.get("R14", 0) + n
+        elif kind == "R17":
+            t, n = r_let_chain(t)
+            fired["R17"] = fired.get("R17", 0) + n
+        elif kind == "R18":
+            t, n = r_for_next(t, spec[1])
+            fired["R18"] = fired.get("R18", 0) + n
         elif kind == "R5":
             t, n = r_cow_borrowed(t)
             fired["R5"] = fired.get("R5", 0) + n
